@@ -60,6 +60,8 @@ def generate(rng, tier: str, index: int) -> dict:
                 'spk_accept': rng.choice(['accept', 'accept', 'refuse', 'blackhole', 'slow']),
             }
         )  # fmt: skip
+        # `local-as auto`: exabgp reads the peer's OPEN first and answers with the peer's AS (another walk through _establish)
+        nbrs[-1]['local_auto'] = rng.chance(0.15)
     events = []
     for _ in range(rng.randint(2, 30 if tier == 'thorough' else 16)):
         peer = rng.randint(0, nn - 1)
@@ -101,7 +103,7 @@ def _delay_open(w, sp, delay: float) -> None:
 
 def neighbor_conf(nb: dict, removed=False, changed=False) -> dict:
     n = {
-        'peer_ip': nb['peer_ip'], 'local_ip': LOCAL, 'local_as': 65001, 'peer_as': nb['peer_as'], 'router_id': '10.0.0.1',
+        'peer_ip': nb['peer_ip'], 'local_ip': LOCAL, 'local_as': 'auto' if nb.get('local_auto') else 65001, 'peer_as': nb['peer_as'], 'router_id': '10.0.0.1',
         'hold': nb['hold'] + (7 if changed else 0), 'families': [(1, 1)], 'passive': nb['passive'],
         'caps': {'route-refresh': True, 'graceful-restart': nb['gr']} if nb['gr'] else {'route-refresh': True},
         'api': {'processes': ['h1'], 'options': ['neighbor-changes']}, 'static': [f'route 192.0.{2 + nb["idx"]}.0/24 next-hop self'],
